@@ -281,6 +281,9 @@ func TestReplay(t *testing.T) {
 		}
 	}
 	var ch *core.Chooser
+	if rf.Tape == nil && rf.RunSeed == 0 {
+		rf.RunSeed = core.Mix(rf.Seed, rf.Config.Property+"/"+rf.Config.Mode, rf.Config.Index/max(rf.Config.Group, 1))
+	}
 	if rf.Tape == nil && rf.RunSeed != 0 {
 		ch = core.NewSeedChooser(rf.RunSeed)
 	} else {
